@@ -5,14 +5,10 @@ import (
 	"io"
 	"log"
 	"os"
-	"sort"
 	"testing"
-	"time"
 
-	tcpip "github.com/brewlin/net-protocol/protocol"
 	"verifh/fw"
-	"verifh/rawpeer"
-	"verifh/rfc"
+	"verifh/script"
 	"verifh/tcpx"
 	"verifh/vt"
 )
@@ -22,180 +18,6 @@ import (
 // initial sequence numbers far from any wrap, and again with them placed just
 // below 2^31 / 2^32 so that the stream crosses the wrap; the stack's transcript,
 // expressed in relative numbers, must be the same.
-
-type step struct {
-	Kind string     `json:"k"` // data, ack, write, read, wait
-	Off  int64      `json:"off,omitempty"`
-	Len  int        `json:"len,omitempty"`
-	Ack  int64      `json:"ack,omitempty"`
-	Sack [][2]int64 `json:"sack,omitempty"`
-	Ms   int        `json:"ms,omitempty"`
-}
-
-type vscript struct {
-	K      int    `json:"k"`
-	Active bool   `json:"active"`
-	TS     bool   `json:"ts"`
-	SACK   bool   `json:"sack"`
-	Steps  []step `json:"steps"`
-}
-
-func genScript(seed int64, k int) vscript {
-	r := fw.NewRand(seed, "C14", "script", k)
-	sc := vscript{K: k, Active: r.Chance(1, 3), TS: r.Bool(), SACK: r.Bool()}
-	var peerNext int64 // next in-order byte of the peer
-	var written int64
-	for i := 0; i < 12+r.Intn(30); i++ {
-		switch r.Intn(9) {
-		case 0, 1: // in-order peer data
-			n := 1 + r.Intn(700)
-			sc.Steps = append(sc.Steps, step{Kind: "data", Off: peerNext, Len: n})
-			peerNext += int64(n)
-		case 2: // out-of-order piece ahead
-			gap := int64(1 + r.Intn(900))
-			sc.Steps = append(sc.Steps, step{Kind: "data", Off: peerNext + gap, Len: 1 + r.Intn(500)})
-		case 3: // overlapping / duplicate piece behind or across the edge
-			back := int64(r.Intn(400))
-			if back > peerNext {
-				back = peerNext
-			}
-			sc.Steps = append(sc.Steps, step{Kind: "data", Off: peerNext - back, Len: 1 + r.Intn(800)})
-			if e := peerNext - back + int64(sc.Steps[len(sc.Steps)-1].Len); e > peerNext {
-				// the new part extends the in-order stream only if it closes no hole wrongly; keep the
-				// model simple: treat it as in-order data up to its end
-				peerNext = e
-			}
-		case 4: // application writes
-			n := 1 + r.Intn(3000)
-			sc.Steps = append(sc.Steps, step{Kind: "write", Len: n})
-			written += int64(n)
-		case 5: // peer acknowledges part of what was written, maybe with SACK blocks
-			if written == 0 {
-				continue
-			}
-			a := int64(r.Intn(int(written) + 1))
-			st := step{Kind: "ack", Ack: a}
-			if r.Chance(1, 3) && written-a > 10 {
-				s0 := a + 1 + int64(r.Intn(int(written-a-1)))
-				st.Sack = [][2]int64{{s0, s0 + 1 + int64(r.Intn(int(written-s0)+1))}}
-			}
-			sc.Steps = append(sc.Steps, st)
-		case 6:
-			sc.Steps = append(sc.Steps, step{Kind: "read"})
-		case 7:
-			sc.Steps = append(sc.Steps, step{Kind: "wait", Ms: []int{50, 250, 1100, 3000}[r.Intn(4)]})
-		case 8: // duplicate ACKs
-			if written == 0 {
-				continue
-			}
-			for j := 0; j < 3; j++ {
-				sc.Steps = append(sc.Steps, step{Kind: "ack", Ack: -1})
-			}
-		}
-	}
-	sc.Steps = append(sc.Steps, step{Kind: "read"}, step{Kind: "wait", Ms: 1500})
-	return sc
-}
-
-// play runs the script with the given initial sequence numbers and returns the
-// stack's transcript in relative terms, one entry per step.
-func play(sc vscript, ownISS, peerISS uint32) ([]string, string) {
-	h, err := rawpeer.NewHost(1500, sc.SACK, "reno")
-	if err != nil {
-		return nil, "harness: " + err.Error()
-	}
-	p := rawpeer.New(h, false)
-	own := ownISS
-	conn, emsg := p.Establish(rawpeer.EstOpts{Active: sc.Active, LPort: 80, PPort: 33333, PeerISS: peerISS, OwnISS: &own, MSS: 1000, WS: 3, TS: sc.TS, SACK: sc.SACK, Window: 60000})
-	if conn == nil {
-		return nil, emsg
-	}
-	defer conn.Close()
-	if sc.Active && conn.ISS != ownISS {
-		return nil, "iss-steering-missed"
-	}
-	var out []string
-	var lastAck int64
-	var readTotal, nearSeq, nearAck int64
-	render := func(segs []rawpeer.Seg) string {
-		var l []string
-		for _, s := range segs {
-			if s.Err != nil {
-				l = append(l, "undecodable")
-				continue
-			}
-			rs, ra := conn.RelSeq(s, nearSeq), conn.RelAck(s, nearAck)
-			if rs > nearSeq {
-				nearSeq = rs
-			}
-			if ra > nearAck {
-				nearAck = ra
-			}
-			e := fmt.Sprintf("f%02x s%d a%d l%d w%d", s.Flags, rs, ra, len(s.Payload), s.Window)
-			if d, ok := s.Opt(5); ok {
-				for i := 0; i+8 <= len(d); i += 8 {
-					e += fmt.Sprintf(" [%d,%d)", int64(rfc.Be32(d[i:])-(conn.IRS+1)), int64(rfc.Be32(d[i+4:])-(conn.IRS+1)))
-				}
-			}
-			l = append(l, e)
-		}
-		sort.Strings(l) // emission order inside one quiescent step is scheduling, not arithmetic
-		return fmt.Sprint(l)
-	}
-	for _, st := range sc.Steps {
-		switch st.Kind {
-		case "data":
-			pl := make([]byte, st.Len)
-			for i := range pl {
-				pl[i] = tcpx.PByte(uint64(sc.K), 1, st.Off+int64(i))
-			}
-			conn.Send(st.Off, lastAck, rfc.ACK|rfc.PSH, 60000, pl, nil)
-		case "ack":
-			a := st.Ack
-			if a < 0 {
-				a = lastAck
-			}
-			if a > lastAck {
-				lastAck = a
-			}
-			var extra []byte
-			if len(st.Sack) > 0 && conn.SACKok {
-				var bl [][2]uint32
-				for _, b := range st.Sack {
-					bl = append(bl, [2]uint32{conn.ISS + 1 + uint32(b[0]), conn.ISS + 1 + uint32(b[1])})
-				}
-				extra = append([]byte{1, 1}, rfc.OptSACK(bl)...)
-			}
-			conn.Send(0, a, rfc.ACK, 60000, nil, extra)
-		case "write":
-			buf := make([]byte, st.Len)
-			for i := range buf {
-				buf[i] = byte(i)
-			}
-			conn.EP.Write(tcpip.SlicePayload(buf), tcpip.WriteOptions{})
-			rawpeer.Settle()
-		case "read":
-			for {
-				v, _, e := conn.EP.Read(nil)
-				if e != nil {
-					break
-				}
-				for i, b := range v {
-					if b != tcpx.PByte(uint64(sc.K), 1, readTotal+int64(i)) {
-						return out, fmt.Sprintf("content mismatch at stream offset %d", readTotal+int64(i))
-					}
-				}
-				readTotal += int64(len(v))
-			}
-			rawpeer.Settle()
-		case "wait":
-			time.Sleep(time.Duration(st.Ms) * time.Millisecond)
-			rawpeer.Settle()
-		}
-		out = append(out, fmt.Sprintf("%s -> %s read=%d", st.Kind, render(conn.Take()), readTotal))
-	}
-	return out, ""
-}
 
 func TestC14VT(t *testing.T) {
 	log.SetOutput(io.Discard)
@@ -208,10 +30,10 @@ func TestC14VT(t *testing.T) {
 	fmt.Sscan(os.Getenv("VERIF_RANGE"), &lo, &hi)
 	vt.Bubble(t, func() {
 		for k := lo; k < hi && run.Violations() < 3; k++ {
-			sc := genScript(run.Seed, k)
+			sc := script.Gen(run.Seed, "C14", k)
 			r := fw.NewRand(run.Seed, "C14", "place", k)
-			base1, e1 := play(sc, 1000000, 2000000)
-			base2, e2 := play(sc, 1000000, 2000000)
+			base1, e1 := script.Play(sc, 1000000, 2000000)
+			base2, e2 := script.Play(sc, 1000000, 2000000)
 			if e1 != "" || e2 != "" || fmt.Sprint(base1) != fmt.Sprint(base2) {
 				// the baseline itself is not reproducible (goroutine scheduling): nothing to compare against
 				run.Inconclusive("baseline-not-reproducible")
@@ -221,7 +43,7 @@ func TestC14VT(t *testing.T) {
 			d1, d2 := uint32(1+r.Intn(4000)), uint32(1+r.Intn(4000))
 			placements := [][2]uint32{{0 - d1, 0 - d2}, {1<<31 - d1, 1<<31 - d2}, {0 - d1, 1<<31 - d2}, {^uint32(0), ^uint32(0)}}
 			for _, pl := range placements {
-				got, e := play(sc, pl[0], pl[1])
+				got, e := script.Play(sc, pl[0], pl[1])
 				run.Count("wrap_placed_replays", 1)
 				if e == "iss-steering-missed" {
 					run.Count("iss_steering_missed", 1)
@@ -235,10 +57,10 @@ func TestC14VT(t *testing.T) {
 					seen := map[string]bool{fmt.Sprint(base1): true}
 					same := false
 					for rep := 0; rep < 6 && !same; rep++ {
-						if b, eb := play(sc, 1000000, 2000000); eb == "" {
+						if b, eb := script.Play(sc, 1000000, 2000000); eb == "" {
 							seen[fmt.Sprint(b)] = true
 						}
-						if g, eg := play(sc, pl[0], pl[1]); eg == "" && seen[fmt.Sprint(g)] {
+						if g, eg := script.Play(sc, pl[0], pl[1]); eg == "" && seen[fmt.Sprint(g)] {
 							same = true
 						}
 						if seen[fmt.Sprint(got)] {
